@@ -166,13 +166,30 @@ pub fn cases_malformed(prop: &str, tier: &str, rng: &mut Rng, stats: &mut Stats,
             judge(out, &Case::Rhist { target: "generic".into(), shp: m.clone(), shx: Some(m), ops: standard_rops(2) });
         }
     }
-    // declared-but-absent data: a header + one record announcing huge counts with a matching size
-    for (code, base, per_pt, has_parts) in [(8i32, 40i64, 16i64, false), (28, 40, 16, false), (18, 56, 24, false), (3, 44, 16, true), (13, 60, 24, true), (31, 60, 24, true), (5, 44, 16, true)] {
-        for npts in [1i64 << 20, (1 << 26) - 3, 1 << 24, 100_000] {
+    // declared-but-absent data: a header + one record announcing huge counts with a MATCHING declared
+    // size (content length = 4 (type) + layout size for those counts), for every multi-vertex type
+    // and both the with-M and without-M layouts of the Z types
+    // (code, fixed bytes incl. type code, bytes per point, has parts array, bytes per part)
+    let layouts: [(i32, i64, i64, bool, i64); 13] = [
+        (8, 40, 16, false, 0),   // Multipoint
+        (28, 56, 24, false, 0),  // MultipointM
+        (18, 56, 24, false, 0),  // MultipointZ without M
+        (18, 72, 32, false, 0),  // MultipointZ with M
+        (3, 44, 16, true, 4),    // Polyline
+        (5, 44, 16, true, 4),    // Polygon
+        (23, 60, 24, true, 4),   // PolylineM
+        (25, 60, 24, true, 4),   // PolygonM
+        (13, 60, 24, true, 4),   // PolylineZ without M
+        (15, 76, 32, true, 4),   // PolygonZ with M
+        (13, 76, 32, true, 4),   // PolylineZ with M
+        (31, 60, 24, true, 8),   // Multipatch without M
+        (31, 76, 32, true, 8),   // Multipatch with M
+    ];
+    for (code, base, per_pt, has_parts, per_part) in layouts {
+        for npts in [1i64 << 20, (1 << 26) - 3, 1 << 24, 100_000, 1 << 16] {
             let nparts: i64 = if has_parts { *rng.pick(&[1i64, 1 << 16, 1 << 22]) } else { 0 };
-            let per_part = if code == 31 { 8 } else { 4 };
             let size = base + per_pt * npts + per_part * nparts;
-            if size + 4 >= (1i64 << 31) {
+            if size >= (1i64 << 31) {
                 continue;
             }
             let mut m = vec![0u8; 100];
@@ -182,7 +199,7 @@ pub fn cases_malformed(prop: &str, tier: &str, rng: &mut Rng, stats: &mut Stats,
             put32(&mut m, 32, code, false);
             let mut rec = vec![0u8; 12 + 32 + 8];
             put32(&mut rec, 0, 1, true);
-            put32(&mut rec, 4, ((size + 4) / 2) as i32, true);
+            put32(&mut rec, 4, (size / 2) as i32, true);
             put32(&mut rec, 8, code, false);
             if has_parts {
                 put32(&mut rec, 44, nparts as i32, false);
@@ -194,7 +211,16 @@ pub fn cases_malformed(prop: &str, tier: &str, rng: &mut Rng, stats: &mut Stats,
             m.extend_from_slice(&rec);
             m.extend((0..rng.range(0, 64)).map(|_| 0u8));
             stats.hit("mut.unbacked-counts");
-            judge(out, &Case::Read { target: "generic".into(), shp: m, shx: None });
+            judge(out, &Case::Read { target: "generic".into(), shp: m.clone(), shx: None });
+            // the same record reached through an index (random access and iteration)
+            let mut x = vec![0u8; 108];
+            put32(&mut x, 0, 9994, true);
+            put32(&mut x, 24, 54, true);
+            put32(&mut x, 28, 1000, false);
+            put32(&mut x, 32, code, false);
+            put32(&mut x, 100, 50, true);
+            put32(&mut x, 104, (size / 2) as i32, true);
+            judge(out, &Case::Rhist { target: "generic".into(), shp: m, shx: Some(x), ops: standard_rops(1) });
         }
     }
     // an index that announces far more entries than it holds
@@ -523,6 +549,98 @@ pub fn oracle_c11(with_shx: bool, ops: &[WOp], sample: Option<(&mut Rng, usize)>
     Verdict::pass()
 }
 
+/// torn length fields: the header rewrite of a finalize cut inside the 4-byte big-endian length,
+/// on files large enough for the new length to carry into a higher byte than the old one (so that
+/// the torn value declares MORE than is present).  `.shp` and `.shx`, with and without the index.
+pub fn oracle_c11_torn(n: usize, first_finalize_after: usize) -> Verdict {
+    let mut ops: Vec<WOp> = vec![];
+    for q in 0..n {
+        ops.push(WOp::Write(Ctor::Point(Dim::Xy, P { x: (q as f64).to_bits(), y: 0.5f64.to_bits(), z: 0, m: 0 })));
+        if q + 1 == first_finalize_after {
+            ops.push(WOp::Finalize);
+        }
+    }
+    ops.push(WOp::Finalize);
+    let h = run_whist(true, "drop", &ops, LogDst::new(), LogDst::new());
+    if h.panicked.is_some() {
+        return Verdict::fail("crash-panic", format!("writing {} points panicked", n));
+    }
+    let written: Vec<SV> = ops
+        .iter()
+        .filter_map(|o| match o {
+            WOp::Write(c) => Some(blind_roles(&expected_readback(&sv_of_any(&build(c).unwrap())))),
+            _ => None,
+        })
+        .collect();
+    let shp_ops = h.shp.ops();
+    let shx_ops = h.shx.ops();
+    // (op index, cut) pairs that stop a write inside the length field (file bytes 24..28): the
+    // header is written field by field or in one piece, depending on the destination
+    let len_cuts = |ops: &[Op]| -> Vec<(usize, usize)> {
+        let mut v = vec![];
+        let mut pos = 0usize;
+        let mut end = 0usize;
+        for (k, op) in ops.iter().enumerate() {
+            match op {
+                Op::Write(b) => {
+                    if pos < 28 && pos + b.len() > 24 {
+                        for c in 0..=b.len() {
+                            if pos + c >= 24 && pos + c <= 28 {
+                                v.push((k, c));
+                            }
+                        }
+                    }
+                    pos += b.len();
+                    end = end.max(pos);
+                }
+                Op::SeekStart(n) => pos = *n as usize,
+                Op::SeekEnd => pos = end,
+                _ => {}
+            }
+        }
+        v
+    };
+    let shp_full = h.shp.data();
+    let shx_full = h.shx.data();
+    let check = |label: String, data: &[u8], x: Option<&[u8]>| -> Option<Verdict> {
+        match read_items(data, x) {
+            Err(e) if e.starts_with("open err") => None,
+            Err(e) => Some(Verdict::fail(if e.starts_with("panic") { "crash-panic" } else { "crash-runaway" }, format!("{}: {}", label, e))),
+            Ok(items) => {
+                let oks: Vec<&SV> = items.iter().filter_map(|i| i.as_ref().ok()).collect();
+                let first_err = items.iter().position(|i| i.is_err()).unwrap_or(items.len());
+                if items[first_err..].iter().any(|i| i.is_ok()) {
+                    return Some(Verdict::fail("crash-shape-after-error", format!("{}: a shape was yielded after an error", label)));
+                }
+                if oks.len() > written.len() || oks.iter().zip(written.iter()).any(|(g, w)| &blind_roles(g) != w) {
+                    return Some(Verdict::fail("crash-wrong-shape", format!("{}: reader yielded a shape that was not written at that position", label)));
+                }
+                None
+            }
+        }
+    };
+    let xc = len_cuts(&shx_ops);
+    let sc = len_cuts(&shp_ops);
+    if xc.len() < 5 || sc.len() < 5 {
+        return Verdict::fail("crash-harness", format!("no write covers the length field: {} / {} cut points", sc.len(), xc.len()));
+    }
+    for (k, cut) in xc {
+        let x = persisted(&shx_ops, k, cut);
+        if let Some(v) = check(format!("{} points, .shx op #{} cut after {} byte(s) (inside the length field)", n, k, cut), &shp_full, Some(&x)) {
+            return v;
+        }
+    }
+    for (k, cut) in sc {
+        let d = persisted(&shp_ops, k, cut);
+        for x in [None, Some(&shx_full[..])] {
+            if let Some(v) = check(format!("{} points, .shp op #{} cut after {} byte(s) (inside the length field)", n, k, cut), &d, x) {
+                return v;
+            }
+        }
+    }
+    Verdict::pass()
+}
+
 fn walk_prefix(shp: &[u8]) -> usize {
     let mut pos = 100usize;
     let mut n = 0;
@@ -574,6 +692,12 @@ pub fn cases_crash(tier: &str, rng: &mut Rng, stats: &mut Stats, out: &mut Out) 
             stats.hit("crash.read-case");
             out.case(&Case::Read { target: "generic".into(), shp: data, shx: if rng.chance(1, 2) { Some(xdata) } else { None } });
         }
+    }
+    // torn length fields on files large enough for a carry (>= 52 index entries, >= 15 point records)
+    for (n, f) in if tier == "thorough" { vec![(52usize, 3usize), (60, 50), (64, 1), (70, 64), (120, 60), (16, 14), (20, 3)] } else { vec![(60, 50), (16, 14)] } {
+        stats.hit("crash.torn-length");
+        let id = out.oracle_only_id();
+        out.verdict(&id, &format!("scenario torn-length {} {}", n, f), oracle_c11_torn(n, f));
     }
 }
 
@@ -1086,7 +1210,15 @@ pub fn macro_cases(out: &mut Out) {
 }
 
 // dbase and geo-types producers live in their own files
-pub use crate_dbf::{cases_dbf, oracle_c08, v_dbfhist, PairOp};
+pub use crate_dbf::{cases_dbf, cases_dbf_c10, cases_pairs_c15, oracle_c08, v_dbfhist, PairOp};
+
+/// replay of oracle-only scenarios (`scenario <name> <args>` lines in replay files)
+pub fn oracle_scenario(prop: &str, a: &[String]) -> Option<Verdict> {
+    match (prop, a.first().map(|s| s.as_str())) {
+        ("C11", Some("torn-length")) => Some(oracle_c11_torn(a.get(1)?.parse().ok()?, a.get(2)?.parse().ok()?)),
+        _ => crate_dbf::oracle_scenario_dbf(prop, a),
+    }
+}
 pub use crate_geo::{cases_geo, parse_geocase, run_geocase, show_geocase, GeoCase, oracle_c20_shape, oracle_c20_geo, oracle_c20_dims};
 #[path = "dbf.rs"]
 mod crate_dbf;
